@@ -367,6 +367,13 @@ class CtxRun:
                 elif k == "h":
                     self.op(s, me, "h %d %s" % (it[1], self.lab_hs(it[2])))
                     r = self.call_handle(RT.handle, it[2]); self.vars[it[1]] = r; self.keep.append(r)
+                elif k == "hd":
+                    # ["hd", x]: `x = labrea.cache.disabled()` — the library's own context managers are runtimes derived
+                    # from the CALLER's current runtime at the time of the call (model: `h x` with no handlers for the
+                    # observed request types); entered with ["W", x, body] like any other
+                    import labrea.cache as LC
+                    self.op(s, me, "h %d %s" % (it[1], self.lab_hs([])))
+                    r = LC.disabled(); self.vars[it[1]] = r; self.keep.append(r)
                 elif k == "g":
                     self.op(s, me, "g %d %d" % (it[1], it[2]))
                     RT.handle_by_default(self.ty(it[1]), (lambda req, h=it[2]: h))
@@ -848,6 +855,8 @@ def solo_expected(scn, i: int) -> List[List[str]]:
                 raise _Boom()
             elif k in ("n", "h"):
                 ls.step(f"{t} {k} {it[1]} {hs(it[2])}")
+            elif k == "hd":
+                ls.step(f"{t} h {it[1]} {hs([])}")
             elif k == "d":
                 ls.step(f"{t} d {it[1]} {it[2]} {hs(it[3])}")
             else:
@@ -1004,6 +1013,10 @@ def scenarios(rng: random.Random, thorough: bool) -> List[Tuple[str, Dict[str, A
          {"kind": "ctx", "setup": [["g", T0, 1], ["n", 0, [[T0, 2]]]],
           "threads": [[["W", 0, [["r", T0], ["r", T0]]], ["r", T0]],
                       [["r", T0], ["p"], ["i", 1], ["r", T0], ["p"], ["h", 1, [[T0, 7]]], ["W", 1, [["r", T0]]], ["i", 1], ["r", T0]]]}),
+        ("a6 labrea.cache.disabled() inside different handler contexts of two threads",
+         {"kind": "ctx", "setup": [["g", T0, 1]],
+          "threads": [[["h", 1, [[T0, 21]]], ["W", 1, [["hd", 3], ["W", 3, [["r", T0]]], ["r", T0]]], ["hd", 5], ["W", 5, [["r", T0]]], ["r", T0]],
+                      [["h", 2, [[T0, 22]]], ["W", 2, [["r", T0], ["hd", 4], ["W", 4, [["r", T0], ["p"]]], ["r", T0]]], ["p"]]]}),
         ("b1 two threads register on one Overloaded",
          {"kind": "reg", "via": "overloaded", "threads": [[[1, 10]], [[2, 20]]]}),
         ("b2 three threads Dataset.register",
